@@ -377,7 +377,13 @@ async fn run_case(env: &mut Env, c: &Case) -> String {
     }
     let id = env.cluster.prepared_id(&text);
     env.cluster.script(NodeSel::Any, text.as_str(), actions_for(env, c));
-    let timeout = if c.has_timeout() { Some(Duration::from_millis(TIMEOUT_MS)) } else { None };
+    let timeout = if c.has_timeout() {
+        Some(Duration::from_millis(TIMEOUT_MS))
+    } else if std::env::var("C07_DEBUG").is_ok() {
+        Some(Duration::from_millis(3000))
+    } else {
+        None
+    };
     let retry: Arc<dyn RetryPolicy> = if c.policy == "x" { Arc::new(ScriptedPolicy) } else { Arc::new(DefaultRetryPolicy::new()) };
     let idem = c.policy != "dn";
 
@@ -478,8 +484,33 @@ async fn run_case(env: &mut Env, c: &Case) -> String {
             }
         }
     }
+    if std::env::var("C07_DEBUG").is_ok() && !c.has_timeout() && items.iter().any(|i| i == "e10000" || i == "f10000") {
+        tokio::time::sleep(Duration::from_millis(4000)).await;
+    }
     let trace = env.cluster.drain_trace();
     let keys = keys_from_trace(&trace, &text, &id);
+    if std::env::var("C07_DEBUG").is_ok() && !c.has_timeout() && items.iter().any(|i| i == "e10000" || i == "f10000") {
+        eprintln!("C07_DEBUG unexpected timeout in: {}", c.line());
+        let mut ours: Vec<(u64, i16)> = Vec::new();
+        for e in &trace {
+            match &e.ev {
+                Ev::In { opcode, body, stream, .. } => {
+                    let mine = (*opcode == op::QUERY && wire::decode_query(body).is_ok_and(|q| q.text == text))
+                        || (*opcode == op::EXECUTE && wire::decode_execute(body, false).is_ok_and(|x| x.id == id));
+                    if mine {
+                        ours.push((e.conn_id, *stream));
+                        eprintln!("  t={} node={} conn={} IN  stream={} opcode={}", e.t_ns / 1000, e.node, e.conn_id, stream, opcode);
+                    }
+                }
+                Ev::Out { opcode, body, stream, written, .. } if ours.contains(&(e.conn_id, *stream)) => {
+                    eprintln!("  t={} node={} conn={} OUT stream={} opcode={} len={} written={}", e.t_ns / 1000, e.node, e.conn_id, stream, opcode, body.len(), written);
+                }
+                Ev::Close { by } => eprintln!("  t={} node={} conn={} CLOSE {:?}", e.t_ns / 1000, e.node, e.conn_id, by),
+                Ev::Open { .. } => eprintln!("  t={} node={} conn={} OPEN", e.t_ns / 1000, e.node, e.conn_id),
+                _ => {}
+            }
+        }
+    }
     if c.has_break() {
         wait_pools(&env.cluster, env.nodes).await;
     }
